@@ -190,9 +190,68 @@ func raceF8(seconds, clients int) {
 			}
 		}(ip)
 	}
+	// lock order of the endpoint index (index lock -> shard lock -> cache lock) against EDS generation (shard read lock,
+	// cache lock): an endpoint churn goroutine (update / empty update / delete / prune of b.example.com through the real
+	// EndpointIndex entry points) runs against a goroutine that generates EDS through the cached generator. A deadlock
+	// makes the run hang (the check reports the timeout); the generated EDS must always be a well-formed answer.
+	var epOps, edsGens atomic.Int64
+	{
+		idx := s.Discovery.Env.EndpointIndex
+		var key model.ShardKey
+		var eps []*model.IstioEndpoint
+		if shards, ok := idx.ShardsForService("b.example.com", "ns-b"); ok {
+			shards.RLock()
+			for k, v := range shards.Shards {
+				key = k
+				for _, e := range v {
+					eps = append(eps, e.DeepCopy())
+				}
+				break
+			}
+			shards.RUnlock()
+		}
+		if len(eps) > 0 {
+			wg.Add(2)
+			go func() {
+				defer wg.Done()
+				for n := 0; !stop.Load(); n++ {
+					switch n % 5 {
+					case 0:
+						idx.UpdateServiceEndpoints(key, "b.example.com", "ns-b", nil, false)
+					case 1:
+						idx.DeleteServiceShard(key, "b.example.com", "ns-b", false)
+					case 2:
+						idx.PruneShard(model.ShardKey{Cluster: "no-such-cluster"}, map[string]sets.String{})
+					default:
+						cp := make([]*model.IstioEndpoint, len(eps))
+						for i, e := range eps {
+							cp[i] = e.DeepCopy()
+						}
+						cp[0].Addresses = []string{fmt.Sprintf("10.252.%d.%d", (n/200)%200, 1+n%200)}
+						idx.UpdateServiceEndpoints(key, "b.example.com", "ns-b", cp, false)
+					}
+					epOps.Add(1)
+					time.Sleep(30 * time.Microsecond)
+				}
+			}()
+			go func() {
+				defer wg.Done()
+				p := w.proxy(basePattrs(1), "edsreader")
+				names := sets.New("outbound|8080||b.example.com")
+				for !stop.Load() {
+					req := &model.PushRequest{Forced: true, Push: s.PushContext(), Start: time.Now()}
+					if _, _, err := w.gens.eds.Generate(p, &model.WatchedResource{TypeUrl: v3.EndpointType, ResourceNames: names}, req); err != nil {
+						panic(err)
+					}
+					edsGens.Add(1)
+				}
+			}()
+		}
+	}
 	time.Sleep(time.Duration(seconds) * time.Second)
 	stop.Store(true)
 	wg.Wait()
+	fmt.Printf("endpoint_index_ops=%d concurrent_eds_generations=%d\n", epOps.Load(), edsGens.Load())
 	time.Sleep(200 * time.Millisecond)
 
 	pc.mu.Lock()
